@@ -94,6 +94,15 @@ def run(ctx):
                 ops = [{"op": "mkds", "p": "/d", "dt": dt, "dims": [4], "chunk": chunk}, {"op": "write", "p": "/d", "data": "ext" if dt == "vls" else "seq"},
                        {"op": "mkds", "p": "/e", "dt": "i32", "dims": [2]}, {"op": "write", "p": "/e", "data": "seq"}]
                 cases.append({"cfg": {"sb": sb, "rb": "", "style": 0, "tag": "C05-types"}, "ops": ops})
+    # filtered chunked datasets: a filter may GROW a chunk (a checksum without a compressor, deflate on data that does not
+    # compress); the stored chunks (sizes from the index) must still be disjoint from each other and from the index
+    for sb in (0, 2, 3):
+        for flt in ("fletcher", "gzip", "shuffle+gzip", "shuffle+fletcher", "gzip+fletcher"):
+            for dt, dims, chunk in (("i32", [64], [16]), ("f64", [6, 8], [3, 4]), ("u8", [40], [8])):
+                ops = [{"op": "mkds", "p": "/f", "dt": dt, "dims": dims, "chunk": chunk, "flt": flt}, {"op": "write", "p": "/f", "data": "rnd"},
+                       {"op": "mkds", "p": "/e", "dt": "i32", "dims": [2]}, {"op": "write", "p": "/e", "data": "seq"},
+                       {"op": "attr", "p": "/f", "n": "a", "v": "s40"}]
+                cases.append({"cfg": {"sb": sb, "rb": "", "style": 0, "tag": "C05-filtered"}, "ops": ops})
     cases += many_chunks() + random_big(ctx, 3000 if thorough else 400)
     cases += neighbour_cases("C05-neighbours", False) + neighbour_cases("C05-neighbours-sessions", True)
     path = ctx.write_cases(cases)
